@@ -20,9 +20,9 @@ type (
 	Locker    = sync.Locker
 )
 
-func NewCond(l Locker) *Cond                               { return sync.NewCond(l) }
-func OnceFunc(f func()) func()                             { return sync.OnceFunc(f) }
-func OnceValue[T any](f func() T) func() T                 { return sync.OnceValue(f) }
+func NewCond(l Locker) *Cond                                   { return sync.NewCond(l) }
+func OnceFunc(f func()) func()                                 { return sync.OnceFunc(f) }
+func OnceValue[T any](f func() T) func() T                     { return sync.OnceValue(f) }
 func OnceValues[T1, T2 any](f func() (T1, T2)) func() (T1, T2) { return sync.OnceValues(f) }
 
 type Mutex struct {
